@@ -41,7 +41,9 @@ def features(binary, workdir, tier, seed):
         exp, _ = gen.expand(mod, workdir / f"x_{mod}", one, sel)
         groups[mod.lower()] = exp
     order, _ = gen.run_generator("GenOrder", workdir / "g_order", dict(MaxDepth=1))
-    groups["order"] = rnd.sample(order, min(len(order), 200 if tier == "quick" else 1500))
+    roots = [c for c in order if len(c["toks"]) == 1]        # the roots that are whole programs (`self()` as a later element / argument / operand)
+    others = [c for c in order if len(c["toks"]) != 1]
+    groups["order"] = roots + rnd.sample(others, min(len(others), 200 if tier == "quick" else 1500))
     out = []
     for g, cases in groups.items():
         for k, c in enumerate(cases):
